@@ -81,6 +81,8 @@ var plans = map[string]Plan{
 		Stages: []Stage{
 			{Harness: "hconc", Config: "default", Quick: 400, Thorough: 20000, QuickSec: 65, ThoroughSec: 1500, MemGB: 10},
 			{Harness: "hconc", Config: "default", Race: true, Quick: 60, Thorough: 2500, QuickSec: 50, ThoroughSec: 1200},
+			// history dimension on inputs with cross-record state: a capture cut in two
+			{Harness: "hsplit", Config: "default", Quick: 250, Thorough: 20000, QuickSec: 35, ThoroughSec: 600, MemGB: 8},
 		},
 		Rule: "one run = 2..6 decode+display jobs (whole fq each: own Interp and simulated OS, shared process-wide registry and package state) drawn with deliberate collisions (same file several times, with and without force, a job hitting EIO/early EOF mid-way next to succeeding ones) from a pool of small corpus samples (one per format), each with one of four display programs whose lazy reads happen in tree-walk order; the jobs run as tasks of one simulation, parked at every disk call and every terminal write (policy drawn per run; most runs coarse, one in four with statement-level pre-emption in the ctx reader); oracle: each fault-free job's stdout, stderr and status are byte-identical to the first lone execution of that job in this worker process, one job is repeated alone afterwards and must still equal it (state left behind by earlier decodes), no panic, no deadlock; race build: the same interleavings under the race detector with a baton that adds no happens-before edge, reports with both accessing frames in fq count; distinct = schedule fingerprint; non-trivial = more context switches than jobs",
 		Real: []string{"the whole of fq per job (interp.New/Main/Stop)", "interp.DefaultRegistry and all package-level state shared by the jobs", "all format decoders the pool needs"},
